@@ -246,6 +246,11 @@ def execute_sink_fault(sc):
     for c in cm.connections():
         if c.name() in closed and c.is_open():
             V.add('C04/close-notice', 'open-but-reported-closed', 'connection %s was reported closed but is open' % c.name())
+    reachable = set(id(c) for c in cm.open_connections.values())
+    for c in cm.connections():
+        if c.is_open() and id(c) not in reachable:
+            V.add('C04/routing', 'open-unreachable', 'connection %s is open but no identifier routes to it (output-write fault at write %d)' % (
+                c.name(), cfg['fault_write']))
     key = ''.join(o[0][0] + str(o[1] if len(o) > 1 else '') for o in sc['sink_ops']) + '/f%d' % cfg['fault_write']
     return {'violations': V.list, 'counters': V.counters, 'nt_keys': [key[:200]] if state['fired'] else [], 'inter_key': key,
             'states': [], 'digest': rec.digest(), 'canon': rec.digest(canonical=True), 'sim_us': int(now * 1e6), 'evals': 1,
